@@ -1,0 +1,473 @@
+//go:build verif
+
+// Machine-checked contracts for property C15 (peer selection), read by govc
+// (>= v6: needs `extern`, `modifies allbut`, `nosafety`, the rand.Intn model
+// and the non-incremental retry). Comment-only file.
+//
+// Layout: (1) heap methods called back by container/heap: key order and index
+// back-pointers; (2) score calculators (tiers); (3) ghost model of heap
+// membership + T3 contracts on container/heap.{Pop,Push,Fix,Remove} (assumed,
+// `extern`); (4) peerHeap wrappers, verified against (3); (5) PeerList:
+// choosePeer / GetNew / Get (selection), updatePeer / onPeerChange (score
+// changes), Add / Remove; (6) SubChannel.BeginCall.
+//
+// Needs `//@   pure` on getHost in verif_contracts.go (agreed with the owner):
+// eligibility mentions getHost(hostPort) under quantifiers.
+
+package tchannel
+
+// The heap key is (score, order), compared lexicographically.
+//@ pred KeyLT(a *peerScore, b *peerScore) := a.score < b.score || (a.score == b.score && a.order < b.order)
+//@ pred KeyLE(a *peerScore, b *peerScore) := a.score < b.score || (a.score == b.score && a.order <= b.order)
+
+//@ func (ph peerHeap) Len() (n int)
+//@   effect nonblocking
+//@   ensures n == len(ph.peerScores)
+//@   property C15
+
+//@ func (ph *peerHeap) Less(i int, j int) (less bool)
+//@   requires 0 <= i && i < len(ph.peerScores) && 0 <= j && j < len(ph.peerScores)
+//@   requires ph.peerScores[i] != nil && ph.peerScores[j] != nil
+//@   label keyed-by-score-then-order
+//@   ensures less <==> KeyLT(ph.peerScores[i], ph.peerScores[j])
+//@   label irreflexive
+//@   ensures i == j ==> !less
+//@   property C15
+
+//@ func (ph peerHeap) Swap(i int, j int)
+//@   requires 0 <= i && i < len(ph.peerScores) && 0 <= j && j < len(ph.peerScores)
+//@   requires ph.peerScores[i] != nil && ph.peerScores[j] != nil
+//@   requires i != j ==> ph.peerScores[i] != ph.peerScores[j]
+//@   modifies elems(ph.peerScores), ph.peerScores[i].index, ph.peerScores[j].index
+//@   label swapped
+//@   ensures ph.peerScores[i] == old(ph.peerScores[j]) && ph.peerScores[j] == old(ph.peerScores[i])
+//@   label back-pointers
+//@   ensures ph.peerScores[i].index == i && ph.peerScores[j].index == j
+//@   label others-untouched
+//@   ensures forall k int :: 0 <= k && k < len(ph.peerScores) && k != i && k != j ==> ph.peerScores[k] == old(ph.peerScores[k])
+//@   label keeps-index-invariant
+//@   ensures old(IdxOK(ph.peerScores)) ==> IdxOK(ph.peerScores)
+//@   property C15
+
+//@ func (ph *peerHeap) Push(x interface{})
+//@   requires istype(x, *peerScore) && x.(*peerScore) != nil
+//@   modifies ph.peerScores, elems(ph.peerScores[0:cap(ph.peerScores)]), x.(*peerScore).index
+//@   ensures len(ph.peerScores) == old(len(ph.peerScores)) + 1
+//@   ensures ph.peerScores[len(ph.peerScores)-1] == x.(*peerScore)
+//@   ensures x.(*peerScore).index == len(ph.peerScores) - 1
+//@   ensures forall k int :: 0 <= k && k < old(len(ph.peerScores)) ==> ph.peerScores[k] == old(ph.peerScores[k])
+//@   label keeps-index-invariant
+//@   ensures old(IdxOK(ph.peerScores)) && (forall k int :: 0 <= k && k < old(len(ph.peerScores)) ==> old(ph.peerScores[k]) != x.(*peerScore)) ==> IdxOK(ph.peerScores)
+//@   property C15
+
+//@ func (ph *peerHeap) Pop() (x interface{})
+//@   requires len(ph.peerScores) > 0 && ph.peerScores[len(ph.peerScores)-1] != nil
+//@   modifies ph.peerScores, ph.peerScores[len(ph.peerScores)-1].index
+//@   ensures istype(x, *peerScore) && x.(*peerScore) == old(ph.peerScores[len(ph.peerScores)-1])
+//@   ensures x.(*peerScore).index == -1
+//@   ensures len(ph.peerScores) == old(len(ph.peerScores)) - 1
+//@   ensures forall k int :: 0 <= k && k < len(ph.peerScores) ==> ph.peerScores[k] == old(ph.peerScores[k])
+//@   label keeps-index-invariant
+//@   ensures old(IdxOK(ph.peerScores)) ==> IdxOK(ph.peerScores)
+//@   property C15
+
+// ---------------------------------------------------------------------------
+// Score calculators. Tiers of the default strategy: inbound connections
+// (score = pending) < other connected (score = MaxInt32 + pending) <
+// unconnected (MaxUint64); within a tier fewer pending calls first. The strict
+// separation of the first two tiers needs pending < 2^31-1 (stated).
+// ---------------------------------------------------------------------------
+//@ pred ConnsOK(p *Peer) := (forall k int :: 0 <= k && k < len(p.inboundConnections) ==> p.inboundConnections[k] != nil && p.inboundConnections[k].outbound != nil) &&
+//@        (forall k int :: 0 <= k && k < len(p.outboundConnections) ==> p.outboundConnections[k] != nil && p.outboundConnections[k].outbound != nil)
+
+//@ func (p *Peer) NumConnections() (inbound int, outbound int)
+//@   ensures inbound == len(p.inboundConnections) && outbound == len(p.outboundConnections)
+//@   property C15
+
+//@ func (p *Peer) NumPendingOutbound() (count int)
+//@   pure
+//@   requires ConnsOK(p)
+//@   modifies nothing
+//@   property C15
+
+//@ func (c leastPendingCalculator) GetScore(p *Peer) (score uint64)
+//@   requires ConnsOK(p)
+//@   label unconnected-last
+//@   ensures len(p.inboundConnections) + len(p.outboundConnections) == 0 ==> score == 18446744073709551615
+//@   label fewer-pending-first
+//@   ensures len(p.inboundConnections) + len(p.outboundConnections) > 0 && p.NumPendingOutbound() >= 0 ==> score == p.NumPendingOutbound() && score < 18446744073709551615
+//@   property C15
+
+//@ func (c preferIncomingCalculator) GetScore(p *Peer) (score uint64)
+//@   requires ConnsOK(p)
+//@   label unconnected-last
+//@   ensures len(p.inboundConnections) + len(p.outboundConnections) == 0 ==> score == 18446744073709551615
+//@   label inbound-first
+//@   ensures len(p.inboundConnections) > 0 && 0 <= p.NumPendingOutbound() ==> score == p.NumPendingOutbound()
+//@   label inbound-tier-below-outbound-tier
+//@   ensures len(p.inboundConnections) > 0 && 0 <= p.NumPendingOutbound() && p.NumPendingOutbound() < 2147483647 ==> score < 2147483647
+//@   label outbound-only-second
+//@   ensures len(p.inboundConnections) == 0 && len(p.outboundConnections) > 0 && 0 <= p.NumPendingOutbound() ==>
+//@             score == 2147483647 + p.NumPendingOutbound() && score >= 2147483647 && score < 18446744073709551615
+//@   property C15
+
+// ---------------------------------------------------------------------------
+// Eligibility for one selection: the host:port was not tried, and (avoid-host
+// pass) its host -- the prefix before the first ':' -- was not tried either.
+// ---------------------------------------------------------------------------
+//@ func (p *Peer) HostPort() (hp string)
+//@   ensures hp == p.hostPort
+//@   property C15
+
+//@ pred Elig(prev map[string]struct{}, avoidHost bool, hp string) := !has(prev, hp) && (avoidHost ==> !has(prev, getHost(hp)))
+//@ pred EligPS(prev map[string]struct{}, avoidHost bool, x *peerScore) := Elig(prev, avoidHost, x.Peer.hostPort)
+//@ pred EligWas(prev map[string]struct{}, avoidHost bool, x *peerScore) := old(EligPS(prev, avoidHost, x))
+//@ pred KeyLEWas(a *peerScore, b *peerScore) := old(KeyLE(a, b))
+
+//@ pred IdxOK(s []*peerScore) := forall k int :: 0 <= k && k < len(s) ==> s[k] != nil && s[k].index == k
+
+// ---------------------------------------------------------------------------
+// Ghost model of heap membership, defined by the container/heap contracts
+// below (T3): home(x) is the identity of the heap that peerScore x currently
+// belongs to (0 if none); ver(ph) counts heap operations on ph;
+// posAt(ver(ph), x) is the position of member x in the current version.
+// A "member" of ph is an object flagged home(x) == ref(ph); Conv says every
+// member sits in the slice at its recorded position.
+// ---------------------------------------------------------------------------
+//@ ghostfield home
+//@ ghostfield ver
+//@ ghost func posAt(v int, x *peerScore) int
+//@ pred In(ph *peerHeap, x *peerScore) := x != nil && home(x) == ref(ph)
+//@ pred WasIn(ph *peerHeap, x *peerScore) := old(In(ph, x))
+//@ pred Conv(ph *peerHeap) := forall x int :: x != 0 && home(x) == ref(ph) ==>
+//@        0 <= posAt(ver(ph), x) && posAt(ver(ph), x) < len(ph.peerScores) && ref(ph.peerScores[posAt(ver(ph), x)]) == x
+//@ pred HeapOK(ph *peerHeap) := ph != nil && Conv(ph)
+// Heap order on the key (score, order); HeapOrdExcept: it may be violated only
+// on the two edges next to position i (what container/heap.Fix repairs).
+//@ pred HeapOrd(s []*peerScore) := forall p int, c int :: 0 <= p && (c == 2*p+1 || c == 2*p+2) && c < len(s) ==> !KeyLT(s[c], s[p])
+//@ pred HeapOrdExcept(s []*peerScore, i int) := forall p int, c int :: 0 <= p && (c == 2*p+1 || c == 2*p+2) && c < len(s) && p != i && c != i ==> !KeyLT(s[c], s[p])
+//@ pred NonNil(s []*peerScore) := forall k int :: 0 <= k && k < len(s) ==> s[k] != nil
+//@ pred BackPtrOK(ph *peerHeap, x *peerScore) := 0 <= x.index && x.index < len(ph.peerScores) && ph.peerScores[x.index] == x
+
+// T3 contracts on container/heap for h = *peerHeap (assumed, never verified).
+// Premises that ARE verified above: Less orders by (score, order); Swap/Push/Pop
+// move elements as the heap expects and keep the index back-pointers.
+// Not expressible, hence stated here in prose only:
+//  * Pop returns a least element only if the slice is heap-ordered on entry
+//    (HeapOrd is machine-checked only around Fix, see swapOrder/updatePeer);
+//  * heap operations also rewrite the `index` field of the members they move;
+//    `modifies` cannot name "field index of every element", so only the index
+//    of the pushed element is declared. No clause below reads the index of any
+//    other member after a heap operation.
+//@ extern container/heap.Pop(h heap.Interface) (x interface{})
+//@   requires istype(h, *peerHeap) && HeapOK(h.(*peerHeap)) && len(h.(*peerHeap).peerScores) > 0
+//@   modifies h.(*peerHeap).peerScores, elems(h.(*peerHeap).peerScores), ver(h.(*peerHeap)), home(x.(*peerScore))
+//@   ensures ver(h.(*peerHeap)) == old(ver(h.(*peerHeap))) + 1
+//@   ensures len(h.(*peerHeap).peerScores) == old(len(h.(*peerHeap).peerScores)) - 1 && arr(h.(*peerHeap).peerScores) == old(arr(h.(*peerHeap).peerScores)) &&
+//@           off(h.(*peerHeap).peerScores) == old(off(h.(*peerHeap).peerScores)) && cap(h.(*peerHeap).peerScores) == old(cap(h.(*peerHeap).peerScores))
+//@   ensures HeapOK(h.(*peerHeap))
+//@   ensures istype(x, *peerScore) && x.(*peerScore) != nil && x.(*peerScore).Peer != nil && WasIn(h.(*peerHeap), x.(*peerScore)) && home(x.(*peerScore)) == 0
+//@   ensures forall j int :: 0 <= j && j < old(len(h.(*peerHeap).peerScores)) ==> KeyLE(x.(*peerScore), old(h.(*peerHeap).peerScores[j]))
+
+//@ extern container/heap.Push(h heap.Interface, x interface{})
+//@   requires istype(h, *peerHeap) && HeapOK(h.(*peerHeap)) && istype(x, *peerScore) && x.(*peerScore) != nil && x.(*peerScore).Peer != nil
+//@   modifies h.(*peerHeap).peerScores, elems(h.(*peerHeap).peerScores[0:cap(h.(*peerHeap).peerScores)]), ver(h.(*peerHeap)), home(x.(*peerScore)), x.(*peerScore).index
+//@   ensures ver(h.(*peerHeap)) == old(ver(h.(*peerHeap))) + 1
+//@   ensures len(h.(*peerHeap).peerScores) == old(len(h.(*peerHeap).peerScores)) + 1
+//@   ensures arr(h.(*peerHeap).peerScores) == old(arr(h.(*peerHeap).peerScores)) || fresh(h.(*peerHeap).peerScores)
+//@   ensures HeapOK(h.(*peerHeap))
+//@   ensures In(h.(*peerHeap), x.(*peerScore)) && BackPtrOK(h.(*peerHeap), x.(*peerScore))
+//@   ensures old(NonNil(h.(*peerHeap).peerScores)) ==> NonNil(h.(*peerHeap).peerScores)
+
+//@ extern container/heap.Fix(h heap.Interface, i int)
+//@   requires istype(h, *peerHeap) && HeapOK(h.(*peerHeap)) && 0 <= i && i < len(h.(*peerHeap).peerScores)
+//@   modifies elems(h.(*peerHeap).peerScores), ver(h.(*peerHeap))
+//@   ensures ver(h.(*peerHeap)) == old(ver(h.(*peerHeap))) + 1
+//@   ensures HeapOK(h.(*peerHeap))
+//@   ensures old(HeapOrdExcept(h.(*peerHeap).peerScores, i)) ==> HeapOrd(h.(*peerHeap).peerScores)
+
+//@ extern container/heap.Remove(h heap.Interface, i int) (x interface{})
+//@   requires istype(h, *peerHeap) && HeapOK(h.(*peerHeap)) && 0 <= i && i < len(h.(*peerHeap).peerScores)
+//@   modifies h.(*peerHeap).peerScores, elems(h.(*peerHeap).peerScores), ver(h.(*peerHeap)), home(x.(*peerScore))
+//@   ensures ver(h.(*peerHeap)) == old(ver(h.(*peerHeap))) + 1
+//@   ensures len(h.(*peerHeap).peerScores) == old(len(h.(*peerHeap).peerScores)) - 1 && arr(h.(*peerHeap).peerScores) == old(arr(h.(*peerHeap).peerScores)) &&
+//@           off(h.(*peerHeap).peerScores) == old(off(h.(*peerHeap).peerScores)) && cap(h.(*peerHeap).peerScores) == old(cap(h.(*peerHeap).peerScores))
+//@   ensures HeapOK(h.(*peerHeap))
+//@   ensures istype(x, *peerScore) && x.(*peerScore) == old(h.(*peerHeap).peerScores[i]) && home(x.(*peerScore)) == 0
+
+//@ func (ph *peerHeap) popPeer() (r *peerScore)
+//@   requires HeapOK(ph) && len(ph.peerScores) > 0
+//@   modifies ph.peerScores, elems(ph.peerScores), ver(ph), home(r)
+//@   ensures ver(ph) == old(ver(ph)) + 1
+//@   ensures len(ph.peerScores) == old(len(ph.peerScores)) - 1 && arr(ph.peerScores) == old(arr(ph.peerScores)) && off(ph.peerScores) == old(off(ph.peerScores)) && cap(ph.peerScores) == old(cap(ph.peerScores))
+//@   ensures HeapOK(ph)
+//@   ensures r != nil && r.Peer != nil && WasIn(ph, r) && home(r) == 0
+//@   label pops-least-key
+//@   ensures forall j int :: 0 <= j && j < old(len(ph.peerScores)) ==> KeyLE(r, old(ph.peerScores[j]))
+//@   property C15
+
+// pushPeer: fresh order stamp in [order', order' + len/2] where order' = old order + 1.
+//@ func (ph *peerHeap) pushPeer(peerScore *peerScore)
+//@   requires HeapOK(ph) && ph.rng != nil && peerScore.Peer != nil
+//@   modifies ph.order, peerScore.order, peerScore.index, ph.peerScores, elems(ph.peerScores[0:cap(ph.peerScores)]), ver(ph), home(peerScore)
+//@   label order-counter-increments
+//@   ensures old(ph.order) < 18446744073709551615 ==> ph.order == old(ph.order) + 1
+//@   label stamp-within-half-length-of-counter
+//@   ensures old(ph.order) + old(len(ph.peerScores))/2 < 18446744073709551615 ==> ph.order <= peerScore.order && peerScore.order <= ph.order + old(len(ph.peerScores))/2
+//@   ensures ver(ph) == old(ver(ph)) + 1
+//@   ensures len(ph.peerScores) == old(len(ph.peerScores)) + 1 && (arr(ph.peerScores) == old(arr(ph.peerScores)) || fresh(ph.peerScores))
+//@   ensures HeapOK(ph) && In(ph, peerScore) && BackPtrOK(ph, peerScore)
+//@   ensures old(NonNil(ph.peerScores)) ==> NonNil(ph.peerScores)
+//@   property C15
+
+// addPeer: push with a fresh stamp, then swap stamps with a random member.
+//@ func (ph *peerHeap) addPeer(peerScore *peerScore)
+//@   requires HeapOK(ph) && ph.rng != nil && peerScore.Peer != nil && NonNil(ph.peerScores)
+//@   modifies allbut Peer, PeerList, RootPeerList
+//@   ensures HeapOK(ph) && In(ph, peerScore) && len(ph.peerScores) == old(len(ph.peerScores)) + 1
+//@   property C15
+
+//@ func (ph *peerHeap) updatePeer(peerScore *peerScore)
+//@   requires HeapOK(ph) && BackPtrOK(ph, peerScore)
+//@   modifies elems(ph.peerScores), ver(ph)
+//@   ensures ver(ph) == old(ver(ph)) + 1
+//@   ensures HeapOK(ph)
+//@   label fix-restores-heap-order
+//@   ensures old(HeapOrdExcept(ph.peerScores, peerScore.index)) ==> HeapOrd(ph.peerScores)
+//@   property C15
+
+//@ func (ph *peerHeap) removePeer(peerScore *peerScore)
+//@   requires HeapOK(ph) && BackPtrOK(ph, peerScore)
+//@   modifies ph.peerScores, elems(ph.peerScores), ver(ph), home(peerScore)
+//@   ensures ver(ph) == old(ver(ph)) + 1
+//@   ensures len(ph.peerScores) == old(len(ph.peerScores)) - 1
+//@   ensures HeapOK(ph) && home(peerScore) == 0
+//@   property C15
+
+// swapOrder swaps two stamps and then calls heap.Fix(i); heap.Fix(j) BY POSITION.
+// DEFECT (see swaporder_defect_test.go.txt): when i != j both positions violate
+// the heap order, so the premise of the first Fix (ordered except at i) does not
+// hold, and after it the element that was at j may have moved; e.g.
+// swapOrder(7, 1) on 8 equal-score peers with orders 1..8 leaves order 8 at
+// position 3 above order 4 at position 7. The clause that restates the intended
+// behaviour is
+//     ensures old(HeapOrd(ph.peerScores)) ==> HeapOrd(ph.peerScores)
+// and it FAILS on the unchanged code (tested). The committed clause below
+// carries the precondition that excludes the defect (i == j); consequently
+// addPeer and PeerList.Add do not claim that they keep the heap ordered.
+//@ func (ph *peerHeap) swapOrder(i int, j int)
+//@   requires HeapOK(ph) && 0 <= i && i < len(ph.peerScores) && 0 <= j && j < len(ph.peerScores)
+//@   requires ph.peerScores[i] != nil && ph.peerScores[j] != nil
+//@   modifies ph.peerScores[i].order, ph.peerScores[j].order, elems(ph.peerScores), ver(ph)
+//@   label stamps-are-swapped
+//@   ensures old(ph.peerScores[i]).order == old(ph.peerScores[j].order) && old(ph.peerScores[j]).order == old(ph.peerScores[i].order)
+//@   ensures HeapOK(ph)
+//@   label heap-order-preserved-only-when-i-equals-j
+//@   ensures i == j && old(HeapOrd(ph.peerScores)) ==> HeapOrd(ph.peerScores)
+//@   property C15
+
+//@ func (l *PeerList) choosePeer(prevSelected map[string]struct{}, avoidHost bool) (p *Peer)
+//@   effect nonblocking
+//@   nilable prevSelected
+//@   requires HeapOK(l.peerHeap) && l.peerHeap.rng != nil
+//@   modifies allbut Peer, PeerList, RootPeerList
+//@   loop 0 invariant 0 <= i && i <= size && len(psPopList) == i && len(l.peerHeap.peerScores) == size - i && size == old(len(l.peerHeap.peerScores))
+//@   loop 0 invariant cap(psPopList) == 0 || arr(psPopList) != arr(l.peerHeap.peerScores)
+//@   loop 0 invariant l.peerHeap == old(l.peerHeap) && l.peerHeap.rng != nil
+//@   loop 0 invariant HeapOK(l.peerHeap)
+//@   loop 0 invariant prevSelected == nil && !avoidHost ==> i == 0
+//@   label set-aside-are-old-members
+//@   loop 0 invariant forall m int :: 0 <= m && m < len(psPopList) ==> psPopList[m] != nil && psPopList[m].Peer != nil && WasIn(old(l.peerHeap), psPopList[m])
+//@   label eligible-members-stay-in-heap
+//@   loop 0 invariant forall k int :: 0 <= k && k < old(len(l.peerHeap.peerScores)) ==> !WasIn(old(l.peerHeap), old(l.peerHeap.peerScores[k])) ||
+//@        !EligPS(prevSelected, avoidHost, old(l.peerHeap.peerScores[k])) || In(l.peerHeap, old(l.peerHeap.peerScores[k]))
+//@   label heap-only-shrinks
+//@   loop 0 invariant forall x int :: x != 0 && home(x) == ref(l.peerHeap) ==> old(home(x)) == ref(l.peerHeap)
+//@   loop 1 invariant l.peerHeap == old(l.peerHeap) && l.peerHeap.rng != nil
+//@   loop 1 invariant HeapOK(l.peerHeap)
+//@   loop 1 invariant cap(psPopList) == 0 || arr(psPopList) != arr(l.peerHeap.peerScores)
+//@   loop 1 invariant forall m int :: 0 <= m && m < len(psPopList) ==> psPopList[m] != nil && psPopList[m].Peer != nil && WasIn(old(l.peerHeap), psPopList[m])
+//@   loop 1 invariant size == old(len(l.peerHeap.peerScores)) && -1 <= rangeindex && len(psPopList) <= size
+//@   loop 1 invariant len(psPopList) < size ==> len(l.peerHeap.peerScores) == size - len(psPopList) + rangeindex
+//@   loop 1 invariant len(psPopList) == size ==> len(l.peerHeap.peerScores) == rangeindex + 1
+//@   loop 1 invariant prevSelected == nil && !avoidHost ==> len(psPopList) == 0
+//@   label no-new-members
+//@   loop 1 invariant forall x int :: x != 0 && home(x) == ref(l.peerHeap) ==> old(home(x)) == ref(l.peerHeap)
+//@   label mid-chosen-is-eligible-member
+//@   loop 1 invariant len(psPopList) < size ==> popped != nil && EligWas(prevSelected, avoidHost, popped) && WasIn(old(l.peerHeap), popped) && old(popped.Peer) != nil
+//@   label mid-chosen-has-an-index-in-the-old-heap
+//@   loop 1 invariant len(psPopList) < size ==> old(0 <= posAt(ver(l.peerHeap), popped) && posAt(ver(l.peerHeap), popped) < len(l.peerHeap.peerScores) &&
+//@        l.peerHeap.peerScores[posAt(ver(l.peerHeap), popped)] == popped)
+//@   label mid-chosen-has-an-index-in-the-old-heap
+//@   loop 1 invariant len(psPopList) < size ==> old(0 <= posAt(ver(l.peerHeap), popped) && posAt(ver(l.peerHeap), popped) < len(l.peerHeap.peerScores) &&
+//@        l.peerHeap.peerScores[posAt(ver(l.peerHeap), popped)] == popped)
+//@   label mid-chosen-has-least-score-among-eligible
+//@   loop 1 invariant len(psPopList) < size ==> forall k int :: 0 <= k && k < old(len(l.peerHeap.peerScores)) ==>
+//@        (WasIn(old(l.peerHeap), old(l.peerHeap.peerScores[k])) && EligWas(prevSelected, avoidHost, old(l.peerHeap.peerScores[k])) ==> KeyLEWas(popped, old(l.peerHeap.peerScores[k])))
+//@   label mid-none-chosen-only-if-none-eligible
+//@   loop 1 invariant len(psPopList) >= size ==> forall k int :: 0 <= k && k < old(len(l.peerHeap.peerScores)) ==>
+//@        !(WasIn(old(l.peerHeap), old(l.peerHeap.peerScores[k])) && EligWas(prevSelected, avoidHost, old(l.peerHeap.peerScores[k])))
+//@   ensures HeapOK(l.peerHeap) && l.peerHeap.rng != nil
+//@   label list-length-unchanged
+//@   ensures len(l.peerHeap.peerScores) == old(len(l.peerHeap.peerScores))
+//@   label chosen-gets-fresh-stamp
+//@   ensures p != nil && old(l.peerHeap.order) < 18446744073709551615 ==> l.peerHeap.order == old(l.peerHeap.order) + 1
+//@   ensures p == nil ==> l.peerHeap.order == old(l.peerHeap.order)
+//@   label unrestricted-pass-finds-a-peer
+//@   ensures prevSelected == nil && !avoidHost && old(len(l.peerHeap.peerScores)) > 0 ==> p != nil
+//@   ensures old(len(l.peerHeap.peerScores)) == 0 ==> p == nil
+//@   label tried-set-untouched
+//@   ensures forall s string :: has(prevSelected, s) <==> old(has(prevSelected, s))
+//@   label no-new-members
+//@   ensures forall x int :: x != 0 && home(x) == ref(l.peerHeap) ==> old(home(x)) == ref(l.peerHeap)
+//@   label none-chosen-only-if-none-eligible
+//@   ensures p == nil ==> (forall k int :: 0 <= k && k < old(len(l.peerHeap.peerScores)) ==>
+//@        !(WasIn(old(l.peerHeap), old(l.peerHeap.peerScores[k])) && EligWas(prevSelected, avoidHost, old(l.peerHeap.peerScores[k]))))
+//@   label chosen-is-eligible-member-with-least-score
+//@   ensures p != nil ==> (exists c int :: 0 <= c && c < old(len(l.peerHeap.peerScores)) && old(l.peerHeap.peerScores[c].Peer) == p &&
+//@        WasIn(old(l.peerHeap), old(l.peerHeap.peerScores[c])) && EligWas(prevSelected, avoidHost, old(l.peerHeap.peerScores[c])) &&
+//@        (forall k int :: 0 <= k && k < old(len(l.peerHeap.peerScores)) ==>
+//@           (WasIn(old(l.peerHeap), old(l.peerHeap.peerScores[k])) && EligWas(prevSelected, avoidHost, old(l.peerHeap.peerScores[k])) ==>
+//@              KeyLEWas(old(l.peerHeap.peerScores[c]), old(l.peerHeap.peerScores[k])))))
+//@   property C15
+
+// ===========================================================================
+// PeerList level
+// ===========================================================================
+
+//@ iface ScoreCalculator.GetScore(p *Peer) (score uint64)
+//@   modifies nothing
+
+//@ func newPeerScore(p *Peer, score uint64) (ps *peerScore)
+//@   nilable p
+//@   ensures fresh(ps) && ps.Peer == p && ps.score == score && ps.index == -1 && ps.order == 0
+//@   property C15
+
+// A score change is recorded and the heap is repaired around the changed element.
+//@ func (l *PeerList) updatePeer(ps *peerScore, newScore uint64)
+//@   requires HeapOK(l.peerHeap) && BackPtrOK(l.peerHeap, ps)
+//@   modifies ps.score, elems(l.peerHeap.peerScores), ver(l.peerHeap)
+//@   label new-score-recorded
+//@   ensures ps.score == newScore
+//@   ensures HeapOK(l.peerHeap)
+//@   label heap-order-restored-after-score-change
+//@   ensures old(HeapOrd(l.peerHeap.peerScores)) && old(IdxOK(l.peerHeap.peerScores)) ==> HeapOrd(l.peerHeap.peerScores)
+//@   property C15
+
+//@ func (l *PeerList) getPeerScore(hostPort string) (ps *peerScore, score uint64, ok bool)
+//@   effect nonblocking
+//@   requires has(l.peersByHostPort, hostPort) ==> l.peersByHostPort[hostPort] != nil
+//@   ensures ok <==> has(l.peersByHostPort, hostPort)
+//@   ensures ok ==> ps == l.peersByHostPort[hostPort] && score == ps.score
+//@   ensures !ok ==> ps == nil && score == 0
+//@   property C15
+
+//@ func (l *PeerList) Len() (n int)
+//@   requires l.peerHeap != nil
+//@   ensures n == len(l.peerHeap.peerScores)
+//@   property C15
+
+// GetNew: "no peers" only for an empty list; first an avoid-host pass, then a
+// host:port pass; a peer is returned iff one of the passes finds one.
+//@ func (l *PeerList) GetNew(prevSelected map[string]struct{}) (peer *Peer, err error)
+//@   nilable prevSelected
+//@   requires HeapOK(l.peerHeap) && l.peerHeap.rng != nil
+//@   requires ErrNoPeers != nil && ErrNoNewPeers != nil && ErrNoPeers != ErrNoNewPeers
+//@   modifies allbut Peer, PeerList, RootPeerList
+//@   ensures HeapOK(l.peerHeap) && l.peerHeap.rng != nil
+//@   label no-peers-iff-list-empty
+//@   ensures err == ErrNoPeers <==> old(len(l.peerHeap.peerScores)) == 0
+//@   ensures (err == nil <==> peer != nil) && (err == nil || err == ErrNoPeers || err == ErrNoNewPeers)
+//@   label avoid-host-pass-has-priority
+//@   ensures (exists k int :: 0 <= k && k < old(len(l.peerHeap.peerScores)) && WasIn(old(l.peerHeap), old(l.peerHeap.peerScores[k])) && EligWas(prevSelected, true, old(l.peerHeap.peerScores[k]))) ==>
+//@        peer != nil && old(Elig(prevSelected, true, peer.hostPort))
+//@   label avoid-host-pass-returns-least-loaded
+//@   ensures (exists k int :: 0 <= k && k < old(len(l.peerHeap.peerScores)) && WasIn(old(l.peerHeap), old(l.peerHeap.peerScores[k])) && EligWas(prevSelected, true, old(l.peerHeap.peerScores[k]))) ==>
+//@        (exists c int :: 0 <= c && c < old(len(l.peerHeap.peerScores)) && old(l.peerHeap.peerScores[c].Peer) == peer &&
+//@          WasIn(old(l.peerHeap), old(l.peerHeap.peerScores[c])) && EligWas(prevSelected, true, old(l.peerHeap.peerScores[c])) &&
+//@          (forall k int :: 0 <= k && k < old(len(l.peerHeap.peerScores)) ==>
+//@            (WasIn(old(l.peerHeap), old(l.peerHeap.peerScores[k])) && EligWas(prevSelected, true, old(l.peerHeap.peerScores[k])) ==>
+//@               KeyLEWas(old(l.peerHeap.peerScores[c]), old(l.peerHeap.peerScores[k])))))
+//@   label never-returns-a-tried-host-port
+//@   ensures peer != nil ==> old(Elig(prevSelected, false, peer.hostPort))
+//@   ensures len(l.peerHeap.peerScores) == old(len(l.peerHeap.peerScores))
+//@   ensures forall s string :: has(prevSelected, s) <==> old(has(prevSelected, s))
+//@   property C15
+
+// Get: as GetNew, then an unrestricted pass; "no peers" only for an empty list.
+//@ func (l *PeerList) Get(prevSelected map[string]struct{}) (peer *Peer, err error)
+//@   nilable prevSelected
+//@   requires HeapOK(l.peerHeap) && l.peerHeap.rng != nil
+//@   requires ErrNoPeers != nil && ErrNoNewPeers != nil && ErrNoPeers != ErrNoNewPeers
+//@   modifies allbut Peer, PeerList, RootPeerList
+//@   ensures HeapOK(l.peerHeap) && l.peerHeap.rng != nil
+//@   label no-peers-iff-list-empty
+//@   ensures err == ErrNoPeers <==> old(len(l.peerHeap.peerScores)) == 0
+//@   ensures (err == nil <==> peer != nil) && (err == nil || err == ErrNoPeers)
+//@   label avoid-host-pass-has-priority
+//@   ensures (exists k int :: 0 <= k && k < old(len(l.peerHeap.peerScores)) && WasIn(old(l.peerHeap), old(l.peerHeap.peerScores[k])) && EligWas(prevSelected, true, old(l.peerHeap.peerScores[k]))) ==>
+//@        peer != nil && old(Elig(prevSelected, true, peer.hostPort))
+//@   property C15
+
+// MapOK: every map entry is a peerScore sitting in the heap at its back-pointer.
+//@ pred EntryOK(l *PeerList, hp string) := has(l.peersByHostPort, hp) ==> l.peersByHostPort[hp] != nil && l.peersByHostPort[hp].Peer != nil && BackPtrOK(l.peerHeap, l.peersByHostPort[hp])
+
+// onPeerChange: the score is recomputed by the list's strategy and the heap repaired.
+//@ func (l *PeerList) onPeerChange(p *Peer)
+//@   requires HeapOK(l.peerHeap) && l.scoreCalculator != nil && EntryOK(l, p.hostPort)
+//@   modifies l.peersByHostPort[p.hostPort].score, elems(l.peerHeap.peerScores), ver(l.peerHeap)
+//@   ensures HeapOK(l.peerHeap)
+//@   label heap-order-kept-across-score-change
+//@   ensures old(HeapOrd(l.peerHeap.peerScores)) && old(IdxOK(l.peerHeap.peerScores)) ==> HeapOrd(l.peerHeap.peerScores)
+//@   property C15
+
+//@ func (l *PeerList) exists(hostPort string) (ps *peerScore, ok bool)
+//@   ensures ok <==> has(l.peersByHostPort, hostPort)
+//@   ensures ok ==> ps == l.peersByHostPort[hostPort]
+//@   property C15
+
+// Remove: the peer leaves both the map and the heap.
+//@ func (l *PeerList) Remove(hostPort string) (err error)
+//@   requires HeapOK(l.peerHeap) && l.peersByHostPort != nil && EntryOK(l, hostPort) && ErrPeerNotFound != nil
+//@   modifies l.peersByHostPort, l.peersByHostPort[hostPort].Peer.scCount, l.peerHeap.peerScores, elems(l.peerHeap.peerScores), ver(l.peerHeap), home(l.peersByHostPort[hostPort])
+//@   ensures err == nil <==> old(has(l.peersByHostPort, hostPort))
+//@   ensures !has(l.peersByHostPort, hostPort)
+//@   ensures err == nil ==> len(l.peerHeap.peerScores) == old(len(l.peerHeap.peerScores)) - 1 && home(old(l.peersByHostPort[hostPort])) == 0
+//@   ensures HeapOK(l.peerHeap)
+//@   property C15
+
+// Add: a new peer gets a score from the list's strategy and enters map and heap.
+//@ func (l *PeerList) Add(hostPort string) (p *Peer)
+//@   requires hostPort != "" && l.parent != nil && l.parent.peersByHostPort != nil && l.peersByHostPort != nil && l.scoreCalculator != nil
+// (the root list's own invariant, C16 file: RootPeerList.Add is called under contract)
+//@   requires c16RootInv(l.parent)
+//@   requires HeapOK(l.peerHeap) && l.peerHeap.rng != nil && NonNil(l.peerHeap.peerScores)
+//@   requires forall hp string :: has(l.peersByHostPort, hp) ==> l.peersByHostPort[hp] != nil
+//@   requires forall hp string :: has(l.parent.peersByHostPort, hp) ==> l.parent.peersByHostPort[hp] != nil
+//@   modifies allbut PeerList, RootPeerList
+//@   ensures HeapOK(l.peerHeap)
+//@   label existing-peer-returned-unchanged
+//@   ensures old(has(l.peersByHostPort, hostPort)) ==> p == old(l.peersByHostPort[hostPort].Peer) && len(l.peerHeap.peerScores) == old(len(l.peerHeap.peerScores))
+//@   label new-peer-enters-heap
+//@   ensures !old(has(l.peersByHostPort, hostPort)) ==> p != nil && len(l.peerHeap.peerScores) == old(len(l.peerHeap.peerScores)) + 1
+//@   property C15
+
+// SubChannel.BeginCall: the peer comes from Get on the sub-channel's list with
+// exactly the request's already-tried set; a selection error is returned as is.
+// Out of scope for C15, assumed (TRUSTED view for C15 callers only): starting
+// the call on the selected peer.
+//@ func (p *Peer) BeginCall(ctx context.Context, serviceName, methodName string, callOptions *CallOptions) (call *OutboundCall, err error)
+//@   trusted
+//@   nilable callOptions
+//@   modifies all
+//@   property C15
+
+//@ func (c *SubChannel) BeginCall(ctx context.Context, methodName string, callOptions *CallOptions) (call *OutboundCall, err error)
+//@   nilable callOptions
+//@   nosafety
+//@   requires c.peers != nil && HeapOK(c.peers.peerHeap) && c.peers.peerHeap.rng != nil && defaultCallOptions != nil
+//@   requires ErrNoPeers != nil && ErrNoNewPeers != nil && ErrNoPeers != ErrNoNewPeers
+//@   modifies all
+//@   label no-peers-reported-for-empty-list
+//@   ensures old(len(c.peers.peerHeap.peerScores)) == 0 ==> call == nil && err == old(ErrNoPeers)
+//@   property C15
